@@ -15,7 +15,7 @@ the ast (anything not listed raises py2coq.Unsupported = broken tie):
               function of  self, dest (a URL object), orig_is_none (bool: dest was passed as a URL
               object) and dest_copy (the value of `URL(dest)`, only used where the source builds it):
                   `orig_dest is None`                    -> orig_is_none
-                  `URL(dest)`                            -> dest_copy
+                  `URL(dest.to_text(full_quote=True))`   -> dest_copy
                   `dest.<attr>`                          -> the model's field / property of dest
                   `dest.path.startswith('/')`            -> starts_with "/" (path_text dest)
                   `x.insert(0, e)`                       -> x := e :: x
@@ -54,9 +54,14 @@ class _PrepNavigate(ast.NodeTransformer):
             return ast.Call(func=ast.Name(id="startswith", ctx=ast.Load()),
                             args=[self.visit(f.value), self.visit(node.args[0])], keywords=[])
         if isinstance(f, ast.Name) and f.id == "URL":
-            if len(node.args) == 1 and isinstance(node.args[0], ast.Name) and node.args[0].id == "dest" and not node.keywords:
+            # URL(dest.to_text(full_quote=True)): the copy of the destination object
+            a = node.args[0] if len(node.args) == 1 and not node.keywords else None
+            if isinstance(a, ast.Call) and isinstance(a.func, ast.Attribute) and a.func.attr == "to_text" \
+                    and isinstance(a.func.value, ast.Name) and a.func.value.id == "dest" and not a.args \
+                    and len(a.keywords) == 1 and a.keywords[0].arg == "full_quote" \
+                    and isinstance(a.keywords[0].value, ast.Constant) and a.keywords[0].value.value is True:
                 return ast.Name(id="dest_copy", ctx=ast.Load())
-            raise Unsupported("URL(...) of something other than dest")
+            raise Unsupported("URL(...) other than URL(dest.to_text(full_quote=True))")
         return self.generic_visit(node)
 
     def visit_Attribute(self, node):
